@@ -81,6 +81,78 @@ def _exhaustive(chk, cfgs, workers):
     chk.require(r.distinct > 100, f'{cfg}: suspiciously small state space ({r.distinct})')
 
 
+def _systematic_behaviours(cfg='C17_pairs.cfg', cap=60):
+  """One implementation test per TRANSITION of a small exhaustive state graph (one thread, nesting <= 2 (3 for
+  the detour family), every family): every ordered pair of (manager, argument) nested in each other, each left
+  normally and by exception, every refused enter / inner fault / early end in every such state.  Behaviours =
+  shortest path to the source of a not yet covered edge + a greedy walk over uncovered edges."""
+  nodes, edges, inits, r = tlc.dump_graph('Scopes', cfg, timeout=1200, workers=4)
+  succ = {}
+  for src, dst, _, _ in edges:
+    succ.setdefault(src, []).append(dst)
+  for v in succ.values():
+    v.sort()
+  parent = {i: None for i in inits}
+  order = sorted(inits)
+  k = 0
+  while k < len(order):
+    u = order[k]
+    k += 1
+    for v in succ.get(u, ()):
+      if v not in parent:
+        parent[v] = u
+        order.append(v)
+
+  def path_to(u):
+    p = [u]
+    while parent[p[-1]] is not None:
+      p.append(parent[p[-1]])
+    return p[::-1]
+  covered = set()
+  behaviours = []
+  for u in order:
+    for v in succ.get(u, ()):
+      if (u, v) in covered:
+        continue
+      p = path_to(u) + [v]
+      for a, b in zip(p, p[1:]):
+        covered.add((a, b))
+      cur = v
+      while len(p) < cap:
+        nxt = [w for w in succ.get(cur, ()) if (cur, w) not in covered]
+        if nxt:
+          covered.add((cur, nxt[0]))
+          p.append(nxt[0])
+          cur = nxt[0]
+          continue
+        # nothing new from here: walk (over covered edges, <= 4 steps) to the nearest state that still has one
+        seen, frontier, hop = {cur: None}, [cur], None
+        for _ in range(4):
+          nf = []
+          for x in frontier:
+            for w in succ.get(x, ()):
+              if w not in seen:
+                seen[w] = x
+                nf.append(w)
+                if hop is None and any((w, z) not in covered for z in succ.get(w, ())):
+                  hop = w
+          if hop is not None or not nf:
+            break
+          frontier = nf
+        if hop is None:
+          break
+        detour = [hop]
+        while seen[detour[-1]] is not None:
+          detour.append(seen[detour[-1]])
+        p.extend(detour[::-1][1:])
+        cur = hop
+      behaviours.append([SimpleNamespace(state=nodes[x]) for x in p])
+  distinct_edges = {(a, b) for a, b, _, _ in edges if a in parent}
+  if not distinct_edges <= covered:
+    raise tlc.TLCError(f'systematic coverage incomplete: {len(distinct_edges - covered)} transitions not covered')
+  return behaviours, r, len(distinct_edges)
+
+
 def _mirror(chk):
   """TLC searches the mechanisms AS CODED for a violation of the nesting rule; a counter-example is
   believed only if the real code follows the as-coded model along it."""
@@ -129,21 +201,27 @@ def run(chk):
   workers_total = tlc.DEFAULT_WORKERS
   tag = 'thorough' if thorough else 'quick'
   cfgs = [f'C17_deep_{tag}.cfg', f'C17_wide_{tag}.cfg'] + (['C17_wide3_thorough.cfg'] if thorough else [])
-  with cf.ThreadPoolExecutor(max_workers=2) as ex:
+  with cf.ThreadPoolExecutor(max_workers=3) as ex:
     if os.environ.get('VERIF_DEV_SKIP_EXHAUSTIVE'):     # development only (mutant screening)
       cfgs = []
       chk.states = 1
     fut_ex = ex.submit(_exhaustive, chk, cfgs, max(2, workers_total // (len(cfgs) + 1)))
     sim_cfg = 'C17_sim_thorough.cfg' if thorough else 'C17_sim.cfg'
-    num, depth, batches = (3000, 24, 6) if thorough else (420, 18, 1)
+    num, depth, batches = (3000, 24, 6) if thorough else (360, 18, 1)
 
     def simulate_all():
       def one(b):
         return tlc.simulate('Scopes', sim_cfg, num=num // batches, depth=depth, seed=chk.seed * 1000 + b + 1,
                             name=f'C17-sim-{b}', timeout=2400)
-      with cf.ThreadPoolExecutor(max_workers=batches) as ex2:
-        return list(ex2.map(one, range(batches)))
+      def prop():
+        # explicit propagation (with_contextual_override) between two threads, densely: only `ctx`
+        return tlc.simulate('Scopes', 'C17_sim_prop.cfg', num=400 if thorough else 120, depth=12,
+                            seed=chk.seed * 1000 + 77, name='C17-sim-prop', timeout=2400)
+      with cf.ThreadPoolExecutor(max_workers=batches + 1) as ex2:
+        fp = ex2.submit(prop)
+        return list(ex2.map(one, range(batches))) + [fp.result()]
     fut_sim = ex.submit(simulate_all)
+    sys_beh, r_sys, n_edges = _systematic_behaviours()
     sims = fut_sim.result()
     chk.notes['t_sim_done'] = round(time.time() - chk.t0, 1)
     fut_ex.result()
@@ -153,7 +231,24 @@ def run(chk):
 
   hits = {}
   nproc = min(8, max(2, (os.cpu_count() or 4) // 2))
-  for behaviours, r in sims:
+  chk.add_tlc(r_sys, count_states=False)
+  chk.notes['systematic'] = {'cfg': 'C17_pairs.cfg', 'states': r_sys.distinct, 'transitions_covered': n_edges,
+                             'behaviours': len(sys_beh)}
+  chk.require(len(sys_beh) > 500, 'vacuous: systematic transition coverage produced hardly any behaviour')
+  for behaviours, r in [(sys_beh, None)] + list(sims):
+    if r is None:
+      results = scopes.replay_many(behaviours, nproc)
+      for beh, (divs, n, h, nobs) in zip(behaviours, results):
+        chk.traces += 1
+        chk.evaluations += nobs
+        chk.count('systematic_behaviours')
+        for k, v in h.items():
+          hits[k] = hits.get(k, 0) + v
+        if divs:
+          chk.count('behaviours_diverging')
+          _report(chk, beh, divs, n, 'C17_pairs.cfg (one test per transition)')
+      chk.notes['t_systematic_replay_done'] = round(time.time() - chk.t0, 1)
+      continue
     chk.add_tlc(r, count_states=False)
     chk.transitions += r.generated
     if not r.ok:
@@ -181,6 +276,7 @@ def run(chk):
   for m in ALL_MGRS:
     chk.require(hits.get('enter:' + m, 0) > 0, f'vacuous: manager {m} never entered')
     chk.require(hits.get('exit:' + m, 0) > 0, f'vacuous: manager {m} never left')
+  chk.require(hits.get('propagate', 0) > 50, 'vacuous: hardly any explicit propagation')
   for k in ('exit:ExitNormal', 'exit:ExitByException', 'propagate', 'exit:ctxprop', 'dont_care:wrap',
             'exit_outcome:raised', 'exit_outcome:suppressed', 'exit_outcome:propagated', 'exit_callback_run',
             'enter_refused:dyn', 'enter_refused:detour', 'enter_refused:ldtypes', 'enter_refused:catch',
